@@ -377,42 +377,45 @@ def task_addlayers_offset(conv, just, alpha, spaces, n, N):
 
 
 def task_addlayers_abstract(conv, n):
-    """The real add_layers over an abstract name generator: layer number k
-    gets the name (F_0(k), .., F_{L-1}(k)) with F uninterpreted, constrained
-    only by the lemma that task 'gen' proves for the real generator
-    (different numbers, different names).  The solver decides which number, if
-    any, carries the surface layer name."""
+    """The real add_layers over an abstract name generator.  add_layers only
+    compares names for equality, so an injective generator is represented
+    without loss by distinct constant tokens for every layer number, except
+    that ONE number K - symbolic, anywhere or nowhere - carries the surface
+    layer name.  (Injectivity and length of the real generator are the lemma
+    proved by the gen tasks.)  The solver decides every comparison."""
     M = _load().mulgrids
     name = 'addlayers-abstract/conv%d/n%d' % (conv, n)
     ob = Ob(name)
-    cfg = dict(task='addlayers', conv=conv, just='r', alpha='atm' if conv in (1,) else 'at', spaces=True, n=n, base=0, abstract=True)
+    cfg = dict(task='addlayers', conv=conv, just='r', alpha='atm', spaces=True, n=n, base=0, abstract=True)
     L = name_length('layer', conv)
 
     def h(c):
+        g0 = M.mulgrid(convention=conv); g0.add_layers([1.0])
+        surface = g0.layerlist[0].name
+        tokens = [''.join(t) for t in itertools.islice(itertools.product('#$%&()*+<=>?[]^_{|}~!', repeat=L), n + 8)]
         g = M.mulgrid(convention=conv)
-        F = [z3.Function('F%d' % k, z3.IntSort(), z3.IntSort()) for k in range(L)]
+        K = c.int('K', 0, n + 2)          # 0: no number has the surface name
         calls = []
         def gen(num, justfn, chs, sp):
-            for old in calls:
-                c.add(z3.Or(*[F[k](old) != F[k](num) for k in range(L)]))      # lemma: injective
             calls.append(num)
-            for k in range(L): c.add(z3.And(F[k](num) >= 32, F[k](num) <= 126))
-            return SStr([SChar(F[k](num)) for k in range(L)])
+            tok = tokens[num]
+            return SStr([SChar(z3.If(K.e == num, ord(surface[k]), ord(tok[k]))) for k in range(L)])
         g.layer_name_from_number = gen
+        rp = lambda m: dict(cfg, K=_mv(m, K))
         try:
             g.add_layers([1.0] * n)
         except Exception as ex:
-            ob.fail(c, 'unexpected-exception', cfg, 'raised %s: %s' % (type(ex).__name__, ex))
+            ob.fail(c, 'unexpected-exception', rp, 'raised %s: %s' % (type(ex).__name__, ex))
             return 'exception'
         names = [lay.name for lay in g.layerlist]
-        surface = names[0]
-        ob.prove(c, len(names) == n + 1, 'layer-count', cfg, 'add_layers did not create one layer per thickness plus the surface layer')
-        ob.prove(c, all(a < b for a, b in zip(calls, calls[1:])) and calls[0] >= 1, 'numbers-increase', cfg,
+        ob.prove(c, len(names) == n + 1, 'layer-count', rp, 'add_layers did not create one layer per thickness plus the surface layer')
+        ob.prove(c, all(a < b for a, b in zip(calls, calls[1:])) and calls[0] >= 1, 'numbers-increase', rp,
                  'layer numbers are not strictly increasing from 1')
-        ob.prove(c, z3.And(*[z3.Not(eq_expr(x, surface)) for x in names[1:]]), 'never-surface-name', cfg,
+        ob.prove(c, z3.And(*[z3.Not(eq_expr(x, surface)) for x in names[1:]]), 'never-surface-name', rp,
                  'a layer got the name of the surface layer')
         pairs = [z3.Not(eq_expr(a, b)) for a, b in itertools.combinations(names[1:], 2)]
-        ob.prove(c, z3.And(*pairs) if pairs else z3.BoolVal(True), 'distinct', cfg, 'two layers got the same name')
+        ob.prove(c, z3.And(*pairs) if pairs else z3.BoolVal(True), 'distinct', rp, 'two layers got the same name')
+        ob.prove(c, len(calls) <= n + 1, 'skips-at-most-one', rp, 'more than one number was skipped although only one carries the surface name')
         return 'layers:%d skipped:%d' % (n, len(calls) - n)
 
     res = sym.explore(h, sym.Ctx(timeout_ms=60000), max_paths=20000)
@@ -476,6 +479,7 @@ def task_fix(check):
     M = _load().mulgrids
     name = 'fix/' + check
     ob = Ob(name)
+    witnesses = []
 
     def h(c):
         c.exact_int_digits = True
@@ -498,11 +502,12 @@ def task_fix(check):
                 u2 = M.unfix_blockname(u)
                 ob.prove(c, eq_expr(u2, u), 'idempotent', rp, 'unfix_blockname is not idempotent')
             elif check == 'print':
-                v = M.valid_blockname(n)
-                if not v: return 'not-valid'
+                # names the simulator can hold as (a3, i2): gate = independent definition of a valid
+                # block name (valid_blockname itself is compared with it in check 'valid')
                 u = M.unfix_blockname(M.fix_blockname(n))
-                ob.prove(c, codes_equal(u, print_form(nc)), 'print-form', rp,
+                ob.prove(c, z3.Implies(valid_oracle(nc), codes_equal(u, print_form(nc))), 'print-form', rp,
                          'unfix(fix(n)) is not the name as the simulator prints it (a3, i2)')
+                if c.solve(valid_oracle(nc), full=True)[0] == 'sat': witnesses.append(1)
             elif check == 'cycle':
                 x1 = M.fix_blockname(M.unfix_blockname(n))
                 x2 = M.fix_blockname(M.unfix_blockname(x1))
@@ -528,15 +533,19 @@ def task_fix(check):
         return 'checked'
 
     res = sym.explore(h, sym.Ctx(timeout_ms=60000), max_paths=20000)
-    return ob.result(name, res)
+    tr = ob.result(name, res, extra=dict(valid_name_witness_paths=len(witnesses)))
+    if check == 'print' and not witnesses and not tr.get('error'):
+        tr['error'] = 'vacuous: no path admits a valid block name'
+    return tr
 
 
-def task_mapping(m_entries):
+def task_mapping(m_entries, values='any'):
     """fix_block_mapping on a mapping of symbolic names (keys distinct, and
     distinct after repair - two keys that denote the same block make the
-    mapping contradictory)."""
+    mapping contradictory).  values='clean': the values need no repair (fewer
+    paths, used for the largest mapping)."""
     M = _load().mulgrids
-    name = 'mapping/entries%d' % m_entries
+    name = 'mapping/entries%d/values-%s' % (m_entries, values)
     ob = Ob(name)
 
     def h(c):
@@ -544,6 +553,10 @@ def task_mapping(m_entries):
         vs = [sym_name(c, 'v%d' % q, 5) for q in range(m_entries)]
         fk = [fix_oracle([x.code for x in k.cells]) for k in ks]
         fv = [fix_oracle([x.code for x in v.cells]) for v in vs]
+        if values == 'clean':
+            for v in vs:
+                vc = [x.code for x in v.cells]
+                c.add(z3.Not(z3.And(is_digit(vc[2]), is_digit(vc[4]), vc[3] == 32)))
         for a, b in itertools.combinations(range(m_entries), 2):
             c.add(z3.Not(eq_expr(ks[a], ks[b])))
             c.add(z3.Or(*[x != y for x, y in zip(fk[a], fk[b])]))
@@ -658,6 +671,42 @@ def validate_symbolic_names(rep, N):
 
 # ---------------------------------------------------------------------------
 
+def validate_add_layers_120(rep):
+    """Concrete traces (model validation, not a deciding step): the real
+    add_layers with 120 thicknesses gives exactly the names of the first
+    numbers whose name is not the surface layer name, as the symbolic tasks
+    predict."""
+    M = _load().mulgrids
+    n = 0
+    for conv in range(4):
+        for alpha in ('lower', 'upper', 'letters52', 'abc', 'atm'):
+            for just in ('r', 'l'):
+                for spaces in (True, False):
+                    chars = M.uniqstring(ALPHABETS[alpha])
+                    g = M.mulgrid(convention=conv)
+                    ref = M.mulgrid(convention=conv)
+                    try:
+                        g.add_layers([1.0] * 120, 0.0, just, chars, spaces)
+                    except M.NamingConventionError:
+                        names = None
+                    else:
+                        names = [l.name for l in g.layerlist]
+                    surface = [' 0', 'atm', 'at', ' 0'][conv]
+                    want, k = [surface], 0
+                    try:
+                        while len(want) < 121:
+                            k += 1
+                            nm = ref.layer_name_from_number(k, justfn_of(M, just), chars, spaces)
+                            if nm != surface: want.append(nm)
+                    except M.NamingConventionError:
+                        want = None
+                    n += 1
+                    if names != want or (names is not None and len(set(names)) != 121):
+                        rep.harness_error('add_layers(120) conv %d %s %s spaces=%s: real names differ from the prediction / not distinct' % (conv, alpha, just, spaces))
+    rep.validated(n)
+    return n
+
+
 def gen_configs(tier):
     alphas = ['lower', 'upper', 'letters52', 'abc'] + (['scrambled', 'dups', 'atm'] if tier == 'thorough' else [])
     out = []
@@ -693,8 +742,9 @@ def run(tier, seed, rep):
                     tasks.append((task_roundtrip, dict(conv=conv, just=just, alpha=alpha, spaces=spaces, atmos=2, pair='underground', N=N)))
                     tasks.append((task_roundtrip, dict(conv=conv, just=just, alpha=alpha, spaces=spaces, atmos=1, pair='atm-per-column', N=N)))
         tasks.append((task_roundtrip, dict(conv=conv, just='r', alpha='lower', spaces=True, atmos=0, pair='atm-single', N=N)))
-    nwin = 6 if tier == 'quick' else 12
-    al_alphas = ['lower', 'atm'] if tier == 'quick' else ['lower', 'upper', 'letters52', 'abc', 'atm', 'scrambled']
+    nwin = 6 if tier == 'quick' else 10
+    nabs = 12 if tier == 'quick' else 40
+    al_alphas = ['lower', 'atm'] if tier == 'quick' else ['lower', 'letters52', 'abc', 'atm']
     for conv in range(4):
         for alpha in al_alphas:
             for just in ('r', 'l'):
@@ -702,28 +752,31 @@ def run(tier, seed, rep):
                     if conv == 0 and (alpha != al_alphas[0] or not spaces): continue
                     if tier == 'quick' and just == 'l' and alpha != 'atm': continue
                     tasks.append((task_addlayers_offset, dict(conv=conv, just=just, alpha=alpha, spaces=spaces, n=nwin, N=N)))
-        tasks.append((task_addlayers_abstract, dict(conv=conv, n=30 if tier == 'quick' else 120)))
+        tasks.append((task_addlayers_abstract, dict(conv=conv, n=nabs)))
     for which in ('column', 'node'):
         for conv in ((0, 1) if tier == 'quick' else range(4)):
             for just in ('r', 'l'):
                 for spaces in (True, False):
-                    for alpha in (['lower'] if tier == 'quick' else ['lower', 'abc', 'letters52']):
+                    for alpha in (['lower'] if tier == 'quick' else ['lower', 'abc']):
                         if tier == 'quick' and which == 'node' and (just == 'l' or conv == 1): continue
                         tasks.append((task_newkey, dict(which=which, conv=conv, just=just, alpha=alpha, spaces=spaces,
                                                         nkeys=2 if tier == 'quick' else 3, N=N)))
     for check in ('fix', 'unfix', 'print', 'cycle', 'fixunfixfix', 'valid'):
         tasks.append((task_fix, dict(check=check)))
-    for m in ((1, 2) if tier == 'quick' else (1, 2, 3)):
+    for m in (1, 2):
         tasks.append((task_mapping, dict(m_entries=m)))
+    if tier == 'thorough':
+        tasks.append((task_mapping, dict(m_entries=3, values='clean')))
     for n in ((1, 2, 3, 4) if tier == 'quick' else (1, 2, 3, 4, 5, 6)):
         tasks.append((task_uniq, dict(n=n)))
 
     nval, bad = validate_symbolic_names(rep, N)
+    n120 = validate_add_layers_120(rep)
     import random
     order = list(range(len(tasks)))
     random.Random(seed).shuffle(order)
     # long tasks first (better packing), seed only permutes within equal weight
-    weight = lambda t: 0 if t[0] in (task_addlayers_offset, task_addlayers_abstract, task_mapping, task_newkey) else 1
+    weight = lambda t: 0 if t[0] is task_addlayers_abstract else 1 if t[0] in (task_addlayers_offset, task_mapping, task_newkey) else 2
     order.sort(key=lambda k: weight(tasks[k]))
     results = report.run_tasks([tasks[k] for k in order])
     rep.add_results(results)
@@ -732,11 +785,13 @@ def run(tier, seed, rep):
         'generator numbers i, j symbolic in [0, %d] (every capacity limit is crossed: 99, 999, 26+26^2(+26^3), 26^2-1, 26^3-1, 3+9(+27); 52-letter capacities only in the thorough tier)' % N,
         'conventions 0-3 x column/node/layer generator x right/left justification x alphabets %s x spaces allowed / not allowed' % sorted(set(g[3] for g in gens)),
         'round trip: layer and column numbers symbolic in [0, %d]; atmosphere type 0 (single atmosphere column name), 1 (surface layer x every column), 2' % N,
-        'add_layers: window of %d layers with the numbering shifted by a symbolic offset in [0, %d] (offset 0 = real behaviour); abstract injective generator for %d layers' % (nwin, N, 30 if tier == 'quick' else 120),
+        'add_layers: window of %d layers with the numbering shifted by a symbolic offset in [0, %d] (offset 0 = real behaviour); abstract injective generator for %d layers' % (nwin, N, nabs),
         'new_column_name / new_node_name: dictionary of %d symbolic keys over alphabet+blank, start index symbolic in [0, %d]' % (2 if tier == 'quick' else 3, N),
         'fix / unfix / cycle: all five-character names over printable ASCII 32..126 (superset of letters, digits, blank); valid_blockname over codes 0..127',
-        'fix_block_mapping: mappings of up to %d entries of such names' % (2 if tier == 'quick' else 3),
+        'fix_block_mapping: mappings of 1 and 2 entries of such names' + (', 3 entries whose values need no repair' if tier == 'thorough' else ''),
         'uniqstring: strings of up to %d letters' % (4 if tier == 'quick' else 6),
+        'layer counts beyond the add_layers windows (up to 120) only by composition: numbers strictly increase (decided for the windows) + generator injectivity on [0, N] (decided); '
+        '%d concrete 120-layer runs of the real add_layers agree with the prediction (validation, not a deciding step)' % n120,
     ]
     rep.outside += [
         'alphabets containing digits, blanks or punctuation (the quantifier says alphabetic); names read from files',
@@ -750,12 +805,13 @@ def run(tier, seed, rep):
     ]
     rep.assumptions += [
         'alphabet passed to the generators has distinct characters (callers apply uniqstring, checked separately on symbolic strings)',
-        'chars[k % n] on a concrete alphabet and a symbolic index is the exact piecewise-linear/ite term over the alphabet (vx.strs.IxStr); '
-        "str(i) / '%2d' % i of a non-negative symbolic integer are its decimal digits (fork per digit count); both validated against the real functions on "
+        'chars[k %% n] on a concrete alphabet and a symbolic index is the exact piecewise-linear/ite term over the alphabet (vx.strs.IxStr); '
+        "str(i) / '%%2d' %% i of a non-negative symbolic integer are its decimal digits (fork per digit count); both validated against the real functions on "
         '%d boundary numbers at the start of every run' % nval,
         'int() of two cells that are digits on the path is 10*d1+d0',
         'add_layers (offset variant): layer_name_from_number(num) is called as layer_name_from_number(base + num) with base symbolic; base = 0 is the shipped behaviour',
-        'add_layers (abstract variant): the name generator is an uninterpreted function constrained only by injectivity, the lemma proved by the gen tasks',
+        'add_layers (abstract variant): the name generator returns distinct constant tokens except that one symbolic number K (or none) carries the surface layer name; '
+        'this represents every injective generator because add_layers only compares names for equality; injectivity is the lemma proved by the gen tasks',
         'fix_block_mapping: keys are distinct and stay distinct after repair (two keys for the same block make the mapping contradictory)',
         'dictionary keys of new_column_name/new_node_name have the convention length and consist of alphabet characters and blanks',
     ]
